@@ -16,6 +16,7 @@ import (
 	"time"
 
 	quic "github.com/refraction-networking/uquic"
+	"github.com/refraction-networking/uquic/testutils/simnet"
 )
 
 type TStream struct {
@@ -35,6 +36,12 @@ type TDgram struct {
 	Size int   `json:"size"`
 }
 
+// TMigrate: the client itself moves the connection to its second interface (AddPath, Probe, Switch) in mid-transfer.
+type TMigrate struct {
+	AtMS   int64 `json:"at"`
+	Switch bool  `json:"switch,omitempty"` // false: the path is only probed, then closed
+}
+
 type TransferScenario struct {
 	Seed        uint64    `json:"seed"`
 	Cfg         WConfig   `json:"cfg"`
@@ -44,6 +51,7 @@ type TransferScenario struct {
 	Dgrams      []TDgram  `json:"dgrams,omitempty"`
 	HorizonMS   int64     `json:"horizon_ms"`
 	LateRebind  bool      `json:"late_rebind,omitempty"`  // at the end: the client's address changes, then a burst of three ack-eliciting packets on a quiet connection
+	Migrate     *TMigrate `json:"migrate,omitempty"`
 	ForeignPeer bool      `json:"foreign_peer,omitempty"` // at the end: a packet framed unlike the in-tree sender's (ACK frame last) is played to the client
 }
 
@@ -203,7 +211,7 @@ func genTransfer(seed uint64, tier string) KScenario {
 		}
 		rttUS := 2 * sc.Net.LatencyUS
 		from := sc.Streams[big].AtMS + rttUS*int64(r.Range(10, 40))/10000
-		sc.Net.Outages = append(sc.Net.Outages, WOutage{Dir: 2, FromMS: from, ToMS: from + max(50, rttUS*3/1000) + int64(r.Pick(0, 100, 400))})
+		sc.Net.Outages = append(sc.Net.Outages, WOutage{Dir: 2, FromMS: from, ToMS: from + max(50, rttUS*3/1000) + int64(r.Pick(0, 100, 400)), NAT: r.P(0.5)})
 	}
 	if sc.Cfg.Datagrams[0] || sc.Cfg.Datagrams[1] {
 		for i, k := 0, r.N(12); i < k; i++ {
@@ -219,6 +227,16 @@ func genTransfer(seed uint64, tier string) KScenario {
 		sc.Net.RebindAtOrd = r.Pick(6, 12, 25, 60, 150)
 	} else if !sc.ForeignPeer && r.P(0.3) {
 		sc.LateRebind = true
+	}
+	// the other path may carry less than the first one: whoever moves a connection starts path MTU discovery afresh
+	if sc.Net.RebindAtOrd > 0 && r.P(0.5) {
+		sc.Net.AltMTU = r.Pick(1300, 1350, 1400)
+	}
+	if sc.Net.RebindAtOrd == 0 && !sc.LateRebind && (sc.Cfg.Client == "plain" || sc.Cfg.Client == "unil") && sc.Cfg.ClientCIDLen > 0 && r.P(0.15) {
+		sc.Migrate = &TMigrate{AtMS: int64(r.Pick(20, 80, 250, 700)), Switch: r.P(0.8)}
+		if r.P(0.6) {
+			sc.Net.AltMTU = r.Pick(1300, 1350, 1400)
+		}
 	}
 	return sc
 }
@@ -415,8 +433,15 @@ func runTransfer(t *testing.T, ksc KScenario, res *KResult) {
 		return
 	}
 	wo := NewWireOracles(w, nodes, res)
+	var tr2 *quic.Transport
+	if sc.Migrate != nil {
+		tr2 = &quic.Transport{Conn: wDF(simnet.NewBlockingSimConn(wClientAddr3, w)), ConnectionIDLength: sc.Cfg.ClientCIDLen}
+	}
 	w.StartDriver()
 	defer func() {
+		if tr2 != nil {
+			tr2.Close()
+		}
 		nodes.Close()
 		w.Stop()
 		if !sc.Net.Explicit {
@@ -696,6 +721,13 @@ func runTransfer(t *testing.T, ksc KScenario, res *KResult) {
 		}
 		return true
 	}
+	if sc.Migrate != nil {
+		wg.Add(1)
+		go func() {
+			defer wg.Done()
+			tMigrate(ctx, w, sc, conns[0], tr2, res)
+		}()
+	}
 	wg.Add(2)
 	go side(0)
 	go side(1)
@@ -758,6 +790,54 @@ func runTransfer(t *testing.T, ksc KScenario, res *KResult) {
 	} else {
 		res.Probe("all-complete")
 	}
+}
+
+// tMigrate: the client application moves its connection to the second interface while transfers are running. Nothing the
+// transfers owe changes with it (C01: they complete, byte for byte); the new path may carry smaller datagrams than the old.
+func tMigrate(ctx context.Context, w *World, sc *TransferScenario, conn *quic.Conn, tr2 *quic.Transport, res *KResult) {
+	select {
+	case <-time.After(time.Duration(sc.Migrate.AtMS) * time.Millisecond):
+	case <-ctx.Done():
+		return
+	}
+	path, err := conn.AddPath(tr2)
+	if err != nil {
+		if conn.Context().Err() == nil {
+			res.Fail("AddPath failed on a live client connection whose server allows migration", "%v", err)
+		}
+		return
+	}
+	pctx, cancel := context.WithTimeout(ctx, 6*time.Second+20*time.Duration(sc.Net.LatencyUS+sc.Net.JitterUS)*time.Microsecond)
+	defer cancel()
+	t0 := w.NowNS()
+	err = path.Probe(pctx)
+	if err != nil {
+		res.Probe("migration:probe-failed")
+		res.Logf("path probe failed after %v: %v", time.Duration(w.NowNS()-t0), err)
+		w.mu.Lock()
+		clean := len(w.Fired) == 0 && len(sc.Net.Outages) == 0
+		w.mu.Unlock()
+		if clean && conn.Context().Err() == nil && ctx.Err() == nil {
+			res.Fail("path probe on a fault-free network did not validate the new path", "%v after %v", err, time.Duration(w.NowNS()-t0))
+		}
+		path.Close()
+		return
+	}
+	res.Probe("migration:path-validated")
+	if !sc.Migrate.Switch {
+		if err := path.Close(); err != nil {
+			res.Fail("closing a validated path that is not in use failed", "%v", err)
+		}
+		return
+	}
+	if err := path.Switch(); err != nil {
+		if conn.Context().Err() == nil {
+			res.Fail("Switch to a validated path failed", "%v", err)
+		}
+		return
+	}
+	res.Probe("migration:switched")
+	res.Logf("client switched to its second interface at %v", time.Duration(w.NowNS()))
 }
 
 // tForeignPeerProbe (C07, "every ack-eliciting packet is covered by an ACK that becomes due no later than the maximum ack delay"):
@@ -910,6 +990,12 @@ func judgeFailure(w *World, cfg *WConfig, netc *WNet, nExplicit int, res *KResul
 			}
 			if gap := time.Duration(w.starvedFor(side, now)); gap < idle-20*time.Millisecond {
 				res.Fail("idle timeout although undamaged datagrams kept arriving", "side %d: last good delivery %v before the failure, idle period %v", side, gap, idle)
+			} else if span := w.longestStarvation(now); 8*span > idle {
+				// Recovery is owed in proportion to the fault, not to the idle period: while one direction delivers nothing for a
+				// span E, retransmission timers back off to about E, what finally arrives can be acknowledged (or, waiting for
+				// keys, be processed) up to 2E after it was first sent, and a round-trip sample of that size makes the next probe
+				// timeout three times as long. An idle period shorter than that runs out while both endpoints wait, correctly.
+				res.Probe("liveness-not-judged-starvation-long-against-the-idle-period")
 			} else if since, what := w.stoppedProbing(side, now); !handshake && since > idle/2+time.Second+3*w.maxTransit() {
 				// Loss recovery never gives up before the idle timeout: with probe timeouts doubling from the last ack-eliciting
 				// transmission, the silence before the idle timer expires is shorter than half the idle period plus half a PTO
@@ -1104,6 +1190,11 @@ func (w *World) pathDeadEvidence(f, p int64) bool {
 	defer w.mu.Unlock()
 	from := f - p - int64(time.Second)
 	bad := func(r *DgramRec) bool {
+		if r.Fate == "altmtu " {
+			// too large for the path the endpoint chose to move to: a lost DPLPMTUD probe is no reason to fall silent, and
+			// anything else of that size is the sender's own doing (a new path starts from the minimum packet size)
+			return false
+		}
 		return len(r.Delivered) == 0 || r.Damaged || strings.Contains(r.Fate, "delay")
 	}
 	for d := 0; d < 2; d++ {
@@ -1173,6 +1264,38 @@ func (w *World) stoppedProbing(side int, now int64) (time.Duration, string) {
 	return time.Duration(now - last.SentNS), what
 }
 
+// longestStarvation: the longest span (before `before`) during which everything one direction carried was lost or damaged: from
+// the first to the last datagram of a run of casualties that no intact delivery interrupts (in send order); a datagram that
+// arrived late counts with its transit time. What vanished through the sender's own doing is left out: too large for a path
+// the sender chose itself, or sent by the server into a NAT binding that only the silent client could reopen.
+func (w *World) longestStarvation(before int64) time.Duration {
+	w.mu.Lock()
+	defer w.mu.Unlock()
+	var longest int64
+	for d := 0; d < 2; d++ {
+		first, last := int64(-1), int64(-1)
+		for _, r := range w.Log[d] {
+			if r.SentNS > before {
+				break
+			}
+			if r.Fate == "altmtu " || r.Fate == "nat " {
+				continue
+			}
+			if len(r.Delivered) > 0 && !r.Damaged && r.Delivered[0] <= before {
+				longest = max(longest, r.Delivered[0]-r.SentNS)
+				first, last = -1, -1
+				continue
+			}
+			if first < 0 {
+				first = r.SentNS
+			}
+			last = r.SentNS
+			longest = max(longest, last-first)
+		}
+	}
+	return time.Duration(longest)
+}
+
 // maxTransit: the longest time a datagram of this run took from send to (first) delivery.
 func (w *World) maxTransit() time.Duration {
 	w.mu.Lock()
@@ -1194,7 +1317,7 @@ func (w *World) lastFaultNS() int64 {
 	var last int64
 	for d := 0; d < 2; d++ {
 		for _, r := range w.Log[d] {
-			if r.Fate != "" && r.SentNS > last {
+			if r.Fate != "" && r.Fate != "altmtu " && r.SentNS > last {
 				last = r.SentNS
 			}
 		}
